@@ -1,5 +1,8 @@
 pub mod bloom;
 pub mod crdt;
+pub mod hexane;
+pub mod serde_cli;
+pub mod sync;
 
 use crate::{rng::Rng, Out, Session};
 use std::collections::BTreeMap;
@@ -13,7 +16,10 @@ pub fn dispatch(sess: &mut Session, toks: &[&str]) -> Vec<String> {
     let engine = cmd.split('.').next().unwrap();
     match engine {
         "bloom" => bloom::exec(toks),
+        "hexane" => hexane::exec(toks),
+        "serde" => serde_cli::exec(toks),
         "crdt" => crdt::exec(&mut sess.crdt, toks),
+        "sync" => sync::exec(&mut sess.sync, toks),
         _ => vec![format!("unknown-engine {}", engine)],
     }
 }
@@ -21,6 +27,10 @@ pub fn dispatch(sess: &mut Session, toks: &[&str]) -> Vec<String> {
 pub fn generate(engine: &str, r: &mut Rng, opts: &BTreeMap<String, String>, sess: &mut Session, out: &mut Out) {
     match engine {
         "bloom" => bloom::generate(r, opts, sess, out),
+        "hexane" => hexane::generate(r, opts, sess, out),
+        "serde" => serde_cli::generate(r, opts, sess, out),
+        "crdt" => crdt::generate(r, opts, sess, out),
+        "sync" => sync::generate(r, opts, sess, out),
         _ => panic!("unknown engine {}", engine),
     }
 }
